@@ -267,12 +267,46 @@ fn thread_cpu_secs(cid: libc::clockid_t) -> Option<f64> {
     if unsafe { libc::clock_gettime(cid, &mut ts) } == 0 { Some(ts.tv_sec as f64 + ts.tv_nsec as f64 / 1e9) } else { None }
 }
 
+/// resident set size of this process in MiB (0 when /proc is not readable)
+fn rss_mib() -> u64 {
+    std::fs::read_to_string("/proc/self/statm").ok().and_then(|s| s.split_whitespace().nth(1).and_then(|x| x.parse::<u64>().ok())).map(|pages| pages * 4096 / (1 << 20)).unwrap_or(0)
+}
+
+fn rss_cap_mib() -> u64 {
+    std::env::var("VERIF_RSS_CAP_MB").ok().and_then(|s| s.parse().ok()).unwrap_or(40_000)
+}
+
 fn watchdog() {
     let mut last: HashMap<usize, (u64, Instant, Option<f64>)> = HashMap::new();
     loop {
         std::thread::sleep(std::time::Duration::from_millis(500));
         let hearts: Vec<Arc<Heart>> = HEARTS.lock().unwrap().clone();
         last.retain(|k, _| hearts.iter().any(|h| Arc::as_ptr(h) as usize == *k));
+        // an endless loop that also allocates (a decoder handing out empty payload pieces for ever, collected by the
+        // payload buffer) exhausts memory long before the time limit: past the cap, the execution whose poll has been
+        // silent for longest (at least two seconds) is the verdict; without such an execution it is a machinery error
+        let rss = rss_mib();
+        if rss > rss_cap_mib() {
+            let mut worst: Option<(Arc<Heart>, std::time::Duration)> = None;
+            for h in hearts.iter() {
+                if let Some(e) = last.get(&(Arc::as_ptr(h) as usize)) {
+                    if h.busy.load(Ordering::Relaxed) && h.tick.load(Ordering::Relaxed) == e.0 && e.1.elapsed().as_secs() >= 2 && worst.as_ref().is_none_or(|w| e.1.elapsed() > w.1) {
+                        worst = Some((h.clone(), e.1.elapsed()));
+                    }
+                }
+            }
+            if let Some((h, _)) = worst {
+                let info = h.exec.lock().unwrap().clone();
+                if let Some((rec, cfg, is_viol)) = info {
+                    let r = rec.lock().map(|r| r.clone()).unwrap_or_default();
+                    if let Some(f) = HANG_HANDLER.lock().unwrap().as_ref() {
+                        f("memory-runaway", &r, &cfg, is_viol);
+                    }
+                }
+            }
+            eprintln!("MACHINERY ERROR: resident set {rss} MiB exceeds the cap of {} MiB (VERIF_RSS_CAP_MB)", rss_cap_mib());
+            std::process::exit(2);
+        }
         for h in hearts.iter() {
             let t = h.tick.load(Ordering::Relaxed);
             let cpu = thread_cpu_secs(h.cpu_clock);
